@@ -196,9 +196,14 @@ LogMatch(a, sa, b, sb) ==
         \A k2 \in 1..SetMax(same) :
             (Retained(a, sa, k2) /\ Retained(b, sb, k2)) => LogEntry(a, sa, k2) = LogEntry(b, sb, k2)
 
+(* an entry sits at the position its own index names: otherwise the log "holds an entry with index i and term t"
+   (the one a peer holds at position i) without being identical to the peer's log up to i *)
+WellIndexed(a, sa) == \A k \in 1..LogLast(a, sa) : Retained(a, sa, k) => LogEntry(a, sa, k).i = k
+
 C05_LogMatching ==
     (Acting /\ an \in gh.members) =>
-        \A j \in gh.members \ {an} : LogMatch(LNode(an), LStor(an), LNode(j), LStor(j))
+        /\ \A j \in gh.members \ {an} : LogMatch(LNode(an), LStor(an), LNode(j), LStor(j))
+        /\ WellIndexed(LNode(an), LStor(an))
 
 C05_LeaderAppendOnly ==
     (SameInc /\ P.role = "L" /\ Q.role = "L" /\ P.term = Q.term) =>
